@@ -1178,6 +1178,8 @@ def build_catalogue() -> Catalogue:
     import models
 
     models.add_model_ops(cat, Op)
+    models.add_model_ops_2(cat, Op)
+    models.add_model_ops_3(cat, Op)
 
     return cat
 
